@@ -3,9 +3,10 @@ the value as laid out in this process (sets/frozensets in iteration order) and i
 
 stdin : one JSON document per line  {"id": <str>, "spec": <spec>}
 stdout: one line per spec           <id> TAB <laid-out value text> TAB get_hash(v) TAB get_hash(data=serialize()) TAB
-        backend.record_value(v) TAB Argument.value_hash TAB CallNode.value_hash of a real call ident(v) ("-" unless "sched")
+        backend.record_value(v) TAB Argument.value_hash TAB CallNode.value_hash TAB CallNode.args_hash of a real call ident(v) ("-" unless "sched")
 spec  : ["N"] ["T"] ["F"] ["i", n] ["f", float.hex()] ["s", str] ["b", hex] ["L", [..]] ["U", [..]] ["D", [[k, v], ..]]
         ["S", [..]] (elements are inserted in this order) ["FS", [..]] ["O", cls, [..]]
+        ["R", "L"|"U", n, row]  list / tuple holding the same row OBJECT n times (equal to ["L"|"U", [row] * n] built apart)
 argv  : <repo path> [fwd | rev | even | odd | evenrev | oddrev]   order in which the specs are hashed / which half of
         the spec indices is hashed at all (a process with another history)
 """
@@ -70,6 +71,9 @@ def build(sp):
         return [build(x) for x in sp[1]]
     if t == "U":
         return tuple(build(x) for x in sp[1])
+    if t == "R":                        # ["R", "L"|"U", n, row]: the SAME row object n times ([row] * n)
+        row = build(sp[3])
+        return [row] * sp[2] if sp[1] == "L" else (row,) * sp[2]
     if t == "D":
         return {build(k): build(v) for k, v in sp[1]}
     if t == "S":
@@ -166,7 +170,7 @@ def main():
             h2 = backend.record_value(v)
         except Exception as e:  # noqa: BLE001
             h2 = err(e)
-        arg = res = "-"
+        arg = res = argsh = "-"
         if doc.get("sched"):                    # a real task call: recorded argument and result hashes
             try:
                 if sched is None:
@@ -179,13 +183,14 @@ def main():
                 (job,) = jobs
                 node = session.query(CallNode).filter(CallNode.call_hash == job.call_hash).one()
                 res = node.value_hash
+                argsh = node.args_hash
                 (a,) = session.query(Argument).filter(Argument.call_hash == job.call_hash).all()
                 arg = a.value_hash
             except Exception as e:  # noqa: BLE001
-                arg = res = err(e)
+                arg = res = argsh = err(e)
         if text(v) != layout:
             layout = "!layout-changed"
-        out.append("\t".join([doc["id"], layout, h0, h1, h2, arg, res]))
+        out.append("\t".join([doc["id"], layout, h0, h1, h2, arg, res, argsh]))
     sys.stdout.write("\n".join(out) + "\n")
 
 
